@@ -403,6 +403,7 @@ def run(ctx):
             if mo != g:
                 ctx.disagree('packet ' + what, line[:240], mo[:200], g[:200])
     nbt_tie(ctx)
+    registry_tie(ctx)
     # ------------------------------------------------------------------ hand-written codecs
     try:
         from corr import c05hand
@@ -410,6 +411,123 @@ def run(ctx):
         ctx.notes.append('hand-written codec harness not present')
         return
     c05hand.run_hand(ctx)
+
+
+def registry_tie(ctx):
+    """Tie of Model/C05Dispatch.lean (driver `c05d.ent`, `c05d.dispatch`, `c05d.enc`, `c05d.dec`; ported from
+    harness/xcheck/c05dispatch_cross/): for every table and every KNOWN protocol version (exhaustive in both
+    tiers) every registered class with its live get_id and codec (field list via
+    extract.wtype_of; hand-written classes by the version comparisons their codecs branch on), the class a dict built
+    like the reactor's holds under every id carried by exactly one class (K1 collision ids are left out: the real
+    answer depends on set iteration order) and under an unused id; write / read of the six hand-written classes."""
+    import minecraft
+    from minecraft.networking.connection import ConnectionContext
+    from minecraft.networking import packets
+    from minecraft.networking.packets import Packet, PacketBuffer
+    from minecraft.networking.types import VarInt
+    from gen import c05dispatch as G
+    rng = ctx.rng
+    PRE = minecraft.PRE
+    known = list(minecraft.KNOWN_PROTOCOL_VERSIONS)
+    versions = known            # exhaustive in both tiers: the whole registry costs well under a second
+    le = lambda c, x: '01'[bool(c.protocol_later_eq(x))]
+    reqs, expect = [], []
+    for name, d, s in G.TABLES:
+        gp = getattr(getattr(packets, d), s).get_packets
+        for pv in versions:
+            cx = ConnectionContext(protocol_version=pv)
+            classes = sorted(gp(cx), key=lambda c: c.__name__)
+            ids = {}
+            for cls in classes:
+                try:
+                    i = cls.get_id(cx)
+                except Exception:
+                    i = None
+                if type(i) is not int:
+                    i = None
+                ids.setdefault(i, []).append(cls.__name__)
+                n = cls.__name__
+                if cls.read is not Packet.read or cls.write_fields is not Packet.write_fields:
+                    codec = {'MapPacket': 'map:' + ''.join(le(cx, x) for x in (107, 452, PRE | 6, 373, 364)),
+                             'SpawnObjectPacket': 'spawn:' + ''.join(le(cx, x) for x in (49, 458, 100)),
+                             'FacePlayerPacket': 'face:' + le(cx, 353), 'CombatEventPacket': 'combat:' + le(cx, PRE | 15),
+                             'PlayerListItemPacket': 'pli:-', 'PluginResponsePacket': 'plugresp:-'}.get(n, 'unlisted-hand-written-class')
+                else:
+                    try:
+                        toks = [extract.wtype_of(t, cx)[1] for f in cls.get_definition(cx) for _, t in f.items()]
+                        codec = 'fields:' + (';'.join(toks) if toks else '-')
+                    except Exception as e:
+                        codec = 'definition-raised:%s' % type(e).__name__
+                reqs.append('c05d.ent %s %d %s' % (name, pv, n))
+                expect.append('ok id=%s codec=%s' % ('~' if i is None else i, codec))
+            for i, cl in ids.items():
+                if i is not None and len(cl) == 1:
+                    reqs.append('c05d.dispatch %s %d %d' % (name, pv, i))
+                    expect.append('ok ' + cl[0])
+            if None not in ids:
+                free = next(x for x in (250, 251, 252, 253, 254, 255, 1000) if x not in ids)
+                reqs.append('c05d.dispatch %s %d %d' % (name, pv, free))
+                expect.append('ok ~')
+    n_reg = len(reqs)
+    # ---- write / read of the hand-written classes
+    uuidhex = '000102030405060708090a0b0c0d0e0f'
+    d64 = lambda x: str(struct.unpack('>Q', struct.pack('>d', x))[0])
+
+    def sample_toks(key, cx):
+        if key == 'map':
+            return '3 1 1 0 [5:12:-1:1:6869] 2 1 3:4 aabb'
+        if key == 'pli':
+            return '0 [a:%s:6162:[6e/76/73]:1:20:6869]' % uuidhex
+        if key == 'spawn':
+            f = cx.protocol_later_eq(100)
+            return '1 %s 5 %s 64 128 1 1 2 3' % (uuidhex, ' '.join(d64(float(v)) if f else str(v) for v in (1, 2, 3)))
+        if key == 'combat':
+            return 'dead:1:2:78'
+        if key == 'face':
+            return '0 %s %s %s 7 1' % (d64(1.0), d64(2.0), d64(3.0))
+        return '1 1 6162'
+    tabs = {'map': 'cbPlay', 'pli': 'cbPlay', 'spawn': 'cbPlay', 'combat': 'cbPlay', 'face': 'cbPlay', 'plug': 'sbLogin'}
+    dec_expect = {}
+    for key, cls, mk in G.hand_samples():
+        t = tabs[key]
+        gp = (packets.clientbound.play if t == 'cbPlay' else packets.serverbound.login).get_packets
+        for pv in versions:
+            cx = ConnectionContext(protocol_version=pv)
+            if cls not in gp(cx):
+                continue
+            p = mk(cx)
+            try:
+                pb, pb2 = PacketBuffer(), PacketBuffer()
+                VarInt.send(p.id, pb)
+                p.write_fields(pb2)
+                idb, body = bytes(pb.get_writable()), bytes(pb2.get_writable())
+                e = 'ok %s %s' % (idb.hex(), body.hex() or '-')
+            except Exception as ex:
+                e, body = 'err:' + type(ex).__name__, None
+            reqs.append('c05d.enc %s %d %s %s' % (t, pv, cls.__name__, sample_toks(key, cx)))
+            expect.append(e)
+            if body is not None:
+                q = cls(cx)
+                rb = PacketBuffer()
+                rb.send(body)
+                rb.reset_cursor()
+                try:
+                    q.read(rb)
+                    real = 'known %s ok' % cls.__name__ if not rb.read() else 'known %s ok, but the real read leaves bytes' % cls.__name__
+                except Exception as ex:
+                    real = 'known %s err:%s' % (cls.__name__, type(ex).__name__)
+                reqs.append('c05d.dec %s %d %s' % (t, pv, (idb + body).hex()))
+                expect.append(real)
+                dec_expect[len(reqs) - 1] = True
+    for k, (line, mo, w) in enumerate(zip(reqs, ctx.driver.ask(reqs), expect)):
+        op = line.split()[0]
+        ctx.case(('c05d', line), sample={'op': op, 'request': line[:100], 'impl': w[:100]} if rng.random() < 0.003 else None)
+        ctx.count('registry.' + op)
+        ok = (mo.startswith(w + ' ') and mo.endswith(' rest=-')) if k in dec_expect else mo == w
+        if not ok:
+            ctx.disagree('%s vs the live registry / codec' % op, line[:300], mo[:300], w[:300])
+    ctx.extra['c05dispatch_pairs'] = ctx.extra.get('c05dispatch_pairs', 0) + len(reqs)
+    ctx.extra['c05dispatch_versions'] = len(versions)
 
 
 def nbt_tie(ctx):
